@@ -65,6 +65,7 @@ type Stats struct {
 	Samples     []any            `json:"samples"`
 	Extra       map[string]any   `json:"extra,omitempty"`
 	maxSamples  int
+	fallback    any
 }
 
 func NewStats() *Stats {
@@ -99,6 +100,13 @@ func (s *Stats) ClassN(name string, n int64) { s.Classes[name] += n }
 func (s *Stats) Sample(v any) {
 	if len(s.Samples) < s.maxSamples {
 		s.Samples = append(s.Samples, v)
+	}
+}
+
+// Fallback remembers one case to show when no case was small enough to be sampled.
+func (s *Stats) Fallback(v any) {
+	if s.fallback == nil {
+		s.fallback = v
 	}
 }
 
@@ -226,8 +234,14 @@ func writeEvidence(c *Ctx, info *checkInfo) error {
 		"samples":             c.Stats.Samples,
 		"classes":             c.Stats.Classes,
 	}
+	if len(c.Stats.Samples) == 0 && c.Stats.fallback != nil {
+		cov["samples"] = []any{c.Stats.fallback}
+	}
 	if cov["samples"] == nil {
 		cov["samples"] = []any{}
+	}
+	if info.assum == nil {
+		info.assum = []string{}
 	}
 	for k, v := range c.Stats.Extra {
 		cov[k] = v
